@@ -142,10 +142,12 @@ def mask (html : Bool) (n : BitVec 64) : BitVec 64 := if html then maskHTML n el
 def word (bs : List UInt8) : BitVec 64 :=
   BitVec.ofNat 64 ((bs.take 8).foldr (fun b acc => b.toNat + 256 * acc) 0)
 
-/-- `bits.TrailingZeros64` -/
-def tz64 (x : BitVec 64) : Nat :=
-  if x == 0#64 then 64 else
-  (List.range 64).find? (fun i => x.getLsbD i) |>.getD 64
+/-- `bits.TrailingZeros64`: index of the lowest set bit, 64 for zero -/
+def tzAux (x : BitVec 64) : Nat → Nat → Nat
+  | _, 0 => 64
+  | i, fuel + 1 => if x.getLsbD i then i else tzAux x (i + 1) fuel
+
+def tz64 (x : BitVec 64) : Nat := tzAux x 0 64
 
 /-- scan of the ⌊len/8⌋ full words: `some j` = first flagged word found, `j` = tz/8 *within that
 word* (as in the source); `none` = no word flagged. -/
